@@ -269,7 +269,7 @@ func TestC26_CrashSweep(t *testing.T) {
 	}
 	r.ReplayAs = "TestC26_Crash"
 	th := r.Thorough()
-	n := vk.Pick(r, 10, 300)
+	n := vk.Pick(r, 10, 150)
 	gen := rapid.Custom(func(rt *rapid.T) c26Case { return c26DrawCrash(rt, th) })
 	points := 0
 	for i := 0; i < n; i++ {
